@@ -43,6 +43,28 @@ Theorem C12_he_rules :
 Proof. exact he_rules. Qed.
 Print Assumptions C12_he_rules.
 
+(* both directions: SignHashEnvelope returns bytes exactly when the digest and the headers obey the rules, Sign succeeded and the message encodes *)
+Theorem C12_sign_he_iff :
+  forall sg h p,
+  let h' := mkH None (Some (set_he_protected (hP h) p)) (rawU h) (hU h) in
+  let o := sign1_sign (mkS1 h' (he_value p) None) None sg in
+  (exists b calls, sign_he sg h p = (Acc b, calls)) <->
+  (validate_hash (he_alg p) (he_value p) = true /\ validate_he_headers h' = true /\
+   out_res o = Acc tt /\ exists b, marshal_sign1 (out_post o) = Acc b).
+Proof. exact sign_he_iff. Qed.
+Print Assumptions C12_sign_he_iff.
+
+(* both directions: VerifyHashEnvelope returns a message exactly when the bytes decode as COSE_Sign1, the headers obey the rules, the signature verifies over the received bytes and the digest has the length of the named hash *)
+Theorem C12_verify_he_iff :
+  forall vf env,
+  (exists m calls, verify_he vf env = (Acc m, calls)) <->
+  (exists m0 a,
+    unmarshal_sign1 env = Acc m0 /\ validate_he_headers (s1_h m0) = true /\
+    fst (sign1_verify m0 None vf) = Acc tt /\
+    payload_hash_alg_of (hP (s1_h m0)) = Acc a /\ validate_hash a (s1_payload m0) = true).
+Proof. exact verify_he_iff. Qed.
+Print Assumptions C12_verify_he_iff.
+
 Theorem C12_validate_hash_length :
   forall a v,
   validate_hash a v = true ->
